@@ -37,6 +37,8 @@ NoDef    == [k |-> "nodef", v |-> MkNone]
 DefVal(x) == [k |-> "val", v |-> x]
 DefFac(x) == [k |-> "fac", v |-> x]
 Fld(n, t, d) == [n |-> n, t |-> t, d |-> d, kw |-> "F", ins |-> <<n>>, out |-> n, ex |-> "F", init |-> "T"]
+FldX(n, t, d, kw, ins, out, ex, init) ==
+  [n |-> n, t |-> t, d |-> d, kw |-> kw, ins |-> ins, out |-> out, ex |-> ex, init |-> init]
 NoHook == [k |-> "nohook"]
 TCls(name, fs, inf, outf) ==
   [k |-> "cls", name |-> name, fs |-> fs, inf |-> inf, outf |-> outf, extra |-> "F", hook |-> NoHook]
@@ -143,10 +145,14 @@ Members(T) ==
          UNION { UNION { { TagWrap(T, T.tags[i], b, 1), TagWrap(T, T.tags[i], b, 2) } :
                          b \in {m \in Members(T.vars[i]) : m.k = "map"} } : i \in DOMAIN T.vars } \ {MkNone}
     [] T.k = "cls"   ->
-         { MkDict([i \in DOMAIN T.fs |-> <<MkStr(T.fs[i].ins[1]), Pick1(Members(T.fs[i].t))>>]),
-           MkDict(<< <<MkStr(T.fs[1].ins[1]), Pick2(Members(T.fs[1].t))>> >>),
-           MkList([i \in DOMAIN T.fs |-> Pick1(Members(T.fs[i].t))]),
-           MkTuple(<< Pick2(Members(T.fs[1].t)) >>) }
+         LET F == SelectSeq(T.fs, LAMBDA f : f.init = "T")
+             P == SelectSeq(F, LAMBDA f : f.kw = "F")
+             R == SelectSeq(P, LAMBDA f : f.d.k = "nodef") IN
+         { MkDict([i \in DOMAIN F |-> <<MkStr(F[i].ins[1]), Pick1(Members(F[i].t))>>]),
+           MkDict([i \in DOMAIN F |-> <<MkStr(F[i].ins[Len(F[i].ins)]), Pick2(Members(F[i].t))>>]),
+           MkDict([i \in DOMAIN R |-> <<MkStr(R[i].ins[1]), Pick1(Members(R[i].t))>>]),
+           MkList([i \in DOMAIN P |-> Pick1(Members(P[i].t))]),
+           MkTuple([i \in DOMAIN R |-> Pick2(Members(R[i].t))]) }
 
 (* member m with position i replaced by p *)
 Repl(s, i, p) == [s EXCEPT ![i] = p]
@@ -196,14 +202,30 @@ Gen(T) ==
                  MkDict(<< <<MkStr(T.tk), T.tags[1]>>, <<MkStr("s_zz"), okbody>> >>),
                  MkMap("proxy", << <<MkStr(T.tag), T.tags[1]>>, <<MkStr("s_y"), MkInt(1)>> >>) }) \ {MkNone}
     [] T.k = "cls"   ->
-         LET base == [i \in DOMAIN T.fs |-> <<MkStr(T.fs[i].ins[1]), Pick1(Members(T.fs[i].t))>>]
-             pos  == [i \in DOMAIN T.fs |-> Pick1(Members(T.fs[i].t))] IN
-         UNION { { MkDict(Repl(base, i, <<base[i][1], p>>)) : p \in Gen(T.fs[i].t) } : i \in DOMAIN T.fs }
-         \cup UNION { { MkList(Repl(pos, i, p)) : p \in Gen(T.fs[i].t) } : i \in DOMAIN T.fs }
+         LET F == SelectSeq(T.fs, LAMBDA f : f.init = "T")
+             P == SelectSeq(F, LAMBDA f : f.kw = "F")
+             base == [i \in DOMAIN F |-> <<MkStr(F[i].ins[1]), Pick1(Members(F[i].t))>>]
+             pos  == [i \in DOMAIN P |-> Pick1(Members(P[i].t))]
+             m1(i) == Pick1(Members(T.fs[i].t)) IN
+         \* one field's value perturbed, by name and by position
+         UNION { { MkDict(Repl(base, i, <<base[i][1], p>>)) : p \in Gen(F[i].t) } : i \in DOMAIN F }
+         \cup UNION { { MkList(Repl(pos, i, p)) : p \in Gen(P[i].t) } : i \in DOMAIN P }
+         \* every input name of every field alone; two names of one field together (duplicate);
+         \* the Python name and the output name used as keys whether or not they are input names
+         \cup UNION { { MkDict(<< <<MkStr(T.fs[i].ins[j]), m1(i)>> >>) : j \in DOMAIN T.fs[i].ins } : i \in DOMAIN T.fs }
+         \cup UNION { { MkDict(<< <<MkStr(T.fs[i].ins[1]), m1(i)>>, <<MkStr(T.fs[i].ins[j]), m1(i)>> >>) :
+                         j \in (DOMAIN T.fs[i].ins) \ {1} } : i \in DOMAIN T.fs }
+         \cup { MkDict(Repl(base, 1, <<MkStr(T.fs[i].n), m1(i)>>)) : i \in DOMAIN T.fs }
+         \cup { MkDict(Repl(base, 1, <<MkStr(T.fs[i].out), m1(i)>>)) : i \in DOMAIN T.fs }
+         \cup { MkDict(Append(base, <<MkStr(T.fs[i].n), m1(i)>>)) : i \in {j \in DOMAIN T.fs : T.fs[j].init = "F"} }
+         \* unknown key, non-string key, missing first field, wrong lengths, non-containers
          \cup { MkDict(Append(base, <<MkStr("s_zz"), MkInt(1)>>)),
+                MkDict(Append(base, <<MkInt(1), MkInt(1)>>)),
                 MkDict(SubSeq(base, 2, Len(base))),
-                MkList(Append(pos, MkInt(1))),
-                MkList(<<>>), MkStr("s_ab") }
+                MkMap("proxy", base),
+                MkList(Append(pos, MkInt(1))), MkSeq("other", pos),
+                MkList(SubSeq(pos, 1, Len(pos) - 1)),
+                MkList(<<>>), MkStr("s_ab"), MkStr("s_a"), MkBytes("b_x") }
 
 -----------------------------------------------------------------------------
 (* the productions: which leaves and which constructors, per family (Focus) *)
@@ -282,6 +304,38 @@ TTagged(vs, lay) ==
 TaggedLeaves == { TTagged(vs, lay) : vs \in { <<V1, V2>>, <<V1, V2, V3>>, <<V3, V1>>, <<V4, V2>>, <<N1, N2>> },
                                      lay \in {"int", "ext", "adj"} }
 
+(* dataclass family: one class per feature of the layout / naming / default rules (C14, C15, and the
+   class parts of C01, C03, C05, C06, C09) *)
+TListI == TSeq("list", TInt)
+KAlias == TCls("KAlias", << FldX("s_a", TInt, NoDef, "F", <<"s_a", "s_x">>, "s_a", "F", "T"),
+                            Fld("s_b", TStr, DefVal(MkStr("s_b"))) >>, <<"struct", "tuple">>, "struct")
+KInNames == TCls("KInNames", << FldX("s_a", TInt, NoDef, "F", <<"s_x", "s_y">>, "s_a", "F", "T"),
+                                Fld("s_b", TInt, DefVal(MkInt(5))) >>, <<"struct">>, "struct")
+KRenameF == TCls("KRenameF", << FldX("s_a", TInt, NoDef, "F", <<"s_x">>, "s_x", "F", "T"),
+                                FldX("s_b", TFloat, DefVal(F15), "F", <<"s_b", "s_y">>, "s_y", "F", "T") >>, <<"struct">>, "struct")
+KExcl == TCls("KExcl", << Fld("s_a", TInt, NoDef), FldX("s_b", TInt, DefVal(MkInt(5)), "F", <<"s_b">>, "s_b", "T", "T") >>,
+              <<"struct", "tuple">>, "struct")
+\* (fields are listed in effective order: keyword-only ones behind the positional ones; C17 derives that order)
+KKw == TCls("KKw", << Fld("s_a", TInt, NoDef), Fld("s_c", TStr, DefVal(MkStr("s_c"))),
+                      FldX("s_b", TInt, DefVal(MkInt(5)), "T", <<"s_b">>, "s_b", "F", "T") >>, <<"struct", "tuple">>, "struct")
+KInit == TCls("KInit", << Fld("s_a", TInt, NoDef), FldX("s_b", TStr, DefVal(MkStr("s_empty")), "F", <<"s_b">>, "s_b", "T", "F"),
+                          Fld("s_c", TInt, NoDef) >>, <<"struct", "tuple">>, "struct")
+KFac == TCls("KFac", << Fld("s_a", TInt, NoDef), Fld("s_b", TListI, DefFac(MkList(<<>>))),
+                        Fld("s_c", TSeq("set", TInt), DefFac([k |-> "set", f |-> "set", es |-> <<>>])) >>, <<"struct", "tuple">>, "struct")
+KHook == [TCls("KHook", << Fld("s_a", TInt, NoDef), Fld("s_b", TInt, DefVal(MkInt(5))) >>, <<"struct", "tuple">>, "struct")
+            EXCEPT !.hook = [k |-> "rejectif", f |-> "s_b", c |-> [k |-> "neg"]]]
+KHookF == [TCls("KHookF", << Fld("s_a", TInt, NoDef), Fld("s_b", TListI, DefFac(MkList(<<>>))) >>, <<"struct", "tuple">>, "struct")
+            EXCEPT !.hook = [k |-> "rejectif", f |-> "s_b", c |-> [k |-> "nonempty"]]]
+KExtra == [TCls("KExtra", << Fld("s_a", TInt, NoDef), Fld("s_b", TInt, DefVal(MkInt(5))) >>, <<"struct">>, "struct")
+            EXCEPT !.extra = "T"]
+KTup == TCls("KTup", << Fld("s_a", TInt, NoDef), Fld("s_b", TStr, DefVal(MkStr("s_b"))) >>, <<"tuple">>, "tuple")
+KTupKw == TCls("KTupKw", << Fld("s_a", TInt, NoDef), FldX("s_b", TInt, DefVal(MkInt(5)), "T", <<"s_b">>, "s_b", "F", "T") >>,
+               <<"struct", "tuple">>, "tuple")
+KNest == TCls("KNest", << Fld("s_a", KAlias, NoDef), Fld("s_b", TSeq("list", KTup), DefFac(MkList(<<>>))) >>, <<"struct", "tuple">>, "struct")
+KOpt == TCls("KOpt", << Fld("s_a", TOpt(TInt), DefVal(MkNone)), Fld("s_b", TUnion(<<TInt, TStr>>), DefVal(MkInt(5))) >>,
+             <<"struct", "tuple">>, "struct")
+ClsLeaves == { KAlias, KInNames, KRenameF, KExcl, KKw, KInit, KFac, KHook, KHookF, KExtra, KTup, KTupKw, KNest, KOpt }
+
 (* C04: adversarial leaves *)
 ClsHook(c) == [TCls("KH", << Fld("s_a", TInt, NoDef), Fld("s_b", TInt, DefVal(MkInt(5))) >>, <<"struct", "tuple">>, "struct")
                  EXCEPT !.hook = [k |-> "rejectif", f |-> "s_a", c |-> c]]
@@ -307,6 +361,7 @@ Leaves ==
     [] Focus = "condt"   -> CondLeaves(CondInnerT, CBase \cup CComb(CBase) \cup CNest)
     [] Focus = "exc"     -> ExcLeaves \cup { TTagged(<<V1, V2>>, lay) : lay \in {"int", "ext", "adj"} }
     [] Focus = "tagged"  -> TaggedLeaves
+    [] Focus = "cls"     -> ClsLeaves
 
 Wrap(T) ==
   { TSeq(k, T) : k \in SeqKinds }
@@ -325,7 +380,7 @@ WrapFew(T) ==
 WrapOf(T, d) ==
   CASE Focus = "matrix" -> Contexts(T)
     [] Focus \in {"unionq", "uniont"} -> UnionNest(T)
-    [] Focus \in {"condq", "condt", "exc", "tagged"} -> WrapFew(T)
+    [] Focus \in {"condq", "condt", "exc", "tagged", "cls"} -> WrapFew(T)
     [] OTHER -> IF d = 0 \/ OuterWrap = "all" THEN Wrap(T) ELSE WrapFew(T)
 
 Init == /\ ph = "grow" /\ dep = 0 /\ ty \in Leaves /\ val = MkNone
